@@ -57,8 +57,8 @@ func init() {
 	}
 	Props["C03"] = &PropDef{
 		ID: "C03",
-		Profile: &Profile{Name: "query", W: with(baseWeights(), "filterNew", 8, "query", 22, "filterReg", 3, "new", 18, "shrink", 2, "reset", 1), MaxEnts: 40, MinOps: 10, MaxOps: 100,
-			RelBias: 30},
+		Profile: &Profile{Name: "query", W: with(baseWeights(), "filterNew", 8, "query", 22, "filterReg", 3, "new", 18, "shrink", 2, "reset", 1, "batchCall", 3, "qOpen", 5, "qNext", 6, "qClose", 5), MaxEnts: 40, MinOps: 10, MaxOps: 100,
+			RelBias: 30, OpenQ: true, MaxOpenQ: 3},
 		Policies: []Policy{{}},
 		Opt:      Options{DeepEvery: 10},
 		Rule: genNote + "filters of arity 0-8 (typed) and unsafe filters with drawn with/without/exclusive, fixed and per-query relation targets are queried against an independent enumeration of the model: " +
@@ -80,7 +80,7 @@ func init() {
 	Props["C05"] = &PropDef{
 		ID: "C05",
 		Profile: &Profile{Name: "cache", W: with(baseWeights(), "filterNew", 8, "filterReg", 12, "query", 20, "removeEntity", 10, "removeEntities", 5, "setRel", 10, "shrink", 4, "reset", 1,
-			"qOpen", 6, "qNext", 8, "qClose", 3, "removeBatch", 4, "addBatch", 4),
+			"qOpen", 6, "qNext", 8, "qClose", 3, "removeBatch", 4, "addBatch", 4, "batchCall", 4),
 			MaxEnts: 30, MinOps: 10, MaxOps: 120, RelBias: 60, OpenQ: true, MaxOpenQ: 4, Caps: []int{1, 1, 2, 3, 4, 8}},
 		Policies: []Policy{{}},
 		Opt:      Options{DeepEvery: 10},
@@ -106,7 +106,7 @@ func init() {
 		ID: "C07",
 		Profile: &Profile{Name: "lock", W: map[string]int{"new": 10, "newBatch": 4, "copy": 2, "add": 8, "remove": 5, "exchange": 4, "set": 5, "write": 4, "setRel": 3, "removeEntity": 5,
 			"removeEntities": 4, "addBatch": 2, "removeBatch": 3, "filterNew": 5, "filterReg": 2, "query": 5, "stats": 2, "emit": 2, "obsNew": 1, "obsReg": 1, "read": 2,
-			"qOpen": 14, "qNext": 16, "qClose": 12, "reset": 1, "register": 4},
+			"qOpen": 14, "qNext": 16, "qClose": 12, "reset": 1, "register": 4, "batchCall": 3},
 			MaxEnts: 25, MinOps: 20, MaxOps: 160, OpenQ: true, MaxOpenQ: 64, Nested: true, Burst: true},
 		Policies: []Policy{{}},
 		Opt:      Options{DeepEvery: 10, Events: true},
@@ -197,7 +197,7 @@ func init() {
 	}
 	Props["C14"] = &PropDef{
 		ID:       "C14",
-		Profile:  &Profile{Name: "typed", W: with(obsW, "obsNew", 4, "obsReg", 4, "query", 10, "filterNew", 6, "addBatch", 4, "removeBatch", 4, "exchangeBatch", 4, "setRelBatch", 4, "newBatch", 6, "scenario", 8), MaxEnts: 40, MinOps: 10, MaxOps: 100, RelBias: 20, ObsPrefix: 2},
+		Profile:  &Profile{Name: "typed", W: with(obsW, "obsNew", 4, "obsReg", 4, "query", 10, "filterNew", 6, "addBatch", 4, "removeBatch", 4, "exchangeBatch", 4, "setRelBatch", 4, "newBatch", 6, "scenario", 8, "batchCall", 3, "qOpen", 4, "qNext", 5, "qClose", 5), MaxEnts: 40, MinOps: 10, MaxOps: 100, RelBias: 30, ObsPrefix: 2, OpenQ: true, MaxOpenQ: 3},
 		Policies: []Policy{{}, {ForceUnsafe: true}},
 		Opt:      Options{DeepEvery: 4, Events: true},
 		Rule: genNote + "backend B0 executes every op through the drawn typed variant (Map, Map1-12, Exchange1-8, Observer1-4; Filter0-8/Query0-8 on both), backend B1 the same op through the ID-based API with the same component list; " +
@@ -219,7 +219,7 @@ func init() {
 	}
 	Props["C15"] = &PropDef{
 		ID: "C15",
-		Profile: &Profile{Name: "shrink", W: with(baseWeights(), "shrink", 12, "setRel", 10, "removeEntity", 10, "removeEntities", 4, "query", 10, "filterNew", 5, "filterReg", 5, "removeBatch", 4),
+		Profile: &Profile{Name: "shrink", W: with(baseWeights(), "reset", 2, "shrink", 12, "setRel", 10, "removeEntity", 10, "removeEntities", 4, "query", 10, "filterNew", 5, "filterReg", 5, "removeBatch", 4),
 			MaxEnts: 40, MinOps: 10, MaxOps: 120, RelBias: 60, Caps: []int{1, 1, 2, 3, 4, 8, 16}},
 		Policies: []Policy{{}, {SkipShrink: true}},
 		Opt:      Options{DeepEvery: 3, ShrinkCaps: true},
